@@ -3,6 +3,8 @@ module github.com/internetarchive/Zeno/verifharness
 go 1.24.2
 
 require (
+	github.com/gabriel-vasile/mimetype v1.4.8
+	github.com/grafov/m3u8 v0.12.1
 	github.com/internetarchive/Zeno v0.0.0
 	github.com/ncruces/go-sqlite3 v0.25.0
 )
@@ -23,7 +25,6 @@ require (
 	github.com/dustin/go-humanize v1.0.1 // indirect
 	github.com/fatih/color v1.16.0 // indirect
 	github.com/fsnotify/fsnotify v1.8.0 // indirect
-	github.com/gabriel-vasile/mimetype v1.4.8 // indirect
 	github.com/gammazero/deque v1.0.0 // indirect
 	github.com/go-viper/mapstructure/v2 v2.2.1 // indirect
 	github.com/gobwas/httphead v0.1.0 // indirect
@@ -31,7 +32,6 @@ require (
 	github.com/gobwas/ws v1.4.0 // indirect
 	github.com/golang/snappy v0.0.4 // indirect
 	github.com/google/uuid v1.6.0 // indirect
-	github.com/grafov/m3u8 v0.12.1 // indirect
 	github.com/hashicorp/consul/api v1.32.0 // indirect
 	github.com/hashicorp/errwrap v1.1.0 // indirect
 	github.com/hashicorp/go-cleanhttp v0.5.2 // indirect
